@@ -115,6 +115,11 @@ var targets = []target{
 	{Dir: "core/hotspot", Func: "Rule.Equals", Name: "hotspot_Equals",
 		Hints: map[string]hint{"r.Resource == newRule.Resource": {"resource_eq", "bool"}, "r.ParamKey == newRule.ParamKey": {"paramKey_eq", "bool"},
 			"reflect.DeepEqual(r.SpecificItems, newRule.SpecificItems)": {"specificItems_eq", "bool"}}},
+	// flow: the reject decision (C02)
+	{Dir: "core/flow", Func: "RejectTrafficShapingChecker.DoCheck", Name: "flow_reject_DoCheck",
+		Hints: map[string]hint{"d.BoundOwner().boundStat.readOnlyMetric": {"", "opaque"},
+			"metricReadonlyStat == nil":                       {"stat_nil", "bool"},
+			"metricReadonlyStat.GetSum(base.MetricEventPass)": {"pass_sum", "int64"}}},
 	{Dir: "core/hotspot", Func: "Rule.IsStatReusable", Name: "hotspot_IsStatReusable",
 		Hints: map[string]hint{"r.Resource == newRule.Resource": {"resource_eq", "bool"}}},
 }
@@ -843,8 +848,9 @@ func (x *tr) errVal(e ast.Expr) string {
 	if ce, ok := e.(*ast.CallExpr); ok {
 		fn := src(x.p.fset, ce.Fun)
 		switch fn {
-		case "errors.New", "errors.Errorf", "fmt.Errorf", "errors.Wrap", "errors.Wrapf":
-			return "1%Z"
+		case "errors.New", "errors.Errorf", "fmt.Errorf", "errors.Wrap", "errors.Wrapf",
+			"base.NewTokenResultBlocked", "base.NewTokenResultBlockedWithMessage", "base.NewTokenResultBlockedWithCause":
+			return "1%Z" // freshly constructed, never nil
 		}
 		if v, ok := x.inline(ce); ok {
 			if v.typ != "error" {
@@ -1018,6 +1024,10 @@ func (x *tr) exec(stmts []ast.Stmt, rest [][]ast.Stmt) string {
 		}
 		if t, ok := x.vars[id.Name]; ok && t == "string" && s.Tok == token.ASSIGN {
 			return x.exec(tail, rest) // message text: not part of the decision
+		}
+		if h, ok := x.t.Hints[src(x.p.fset, s.Rhs[0])]; ok && h.Typ == "opaque" && s.Tok == token.DEFINE {
+			x.vars[id.Name] = "ptr:?" // an object used only through further hints
+			return x.exec(tail, rest)
 		}
 		if bl, ok := s.Rhs[0].(*ast.BasicLit); ok && bl.Kind == token.STRING && s.Tok == token.DEFINE {
 			x.vars[id.Name] = "string"
@@ -1270,8 +1280,8 @@ func translate(root *rootT, t target) (def string, info outFn) {
 	var pre string
 	for _, f := range fd.Type.Results.List {
 		ty := x.typeOfExpr(f.Type)
-		if src(p.fset, f.Type) == "error" {
-			ty = "error"
+		if st := src(p.fset, f.Type); st == "error" || st == "*base.TokenResult" {
+			ty = "error" // 0 = nil, non-zero = a non-nil value
 		}
 		if len(f.Names) == 0 {
 			x.resTypes = append(x.resTypes, ty)
